@@ -228,18 +228,19 @@ def wrap_verbose(func):
     @wraps(func)
     def inner_verbose(*args, **kwargs):
 
+        current_level = None
         if ('verbose' in kwargs) and (kwargs['verbose'] is not None):
             tmp_level = kwargs['verbose']
+            # current_level stays None if the logger has not been set up (no console handler)
             current_level = get_level()
             set_level(level=tmp_level)
-        elif ('verbose' in kwargs):
-            logger.warning("Logger level '{0}' not recognised - level is unchanged".format(kwargs['verbose']))
 
-        # Call function itself
-        func_output = func(*args, **kwargs)
-
-        if ('verbose' in kwargs) and (kwargs['verbose'] is not None):
-            set_level(level=logging._levelToName[current_level])
+        # Call function itself - making sure the previous level is restored if it raises
+        try:
+            func_output = func(*args, **kwargs)
+        finally:
+            if current_level is not None:
+                set_level(level=logging._levelToName[current_level])
 
         return func_output
     return inner_verbose
